@@ -34,7 +34,6 @@ m = {
     'checks': checks,
     'notes': 'Exit codes: 0 held / 1 VIOLATION / 2 undecided with no stand-in / 3 checker defect. See DESIGN.md.',
 }
-if na:
-    m['not_applicable'] = na
+m['not_applicable'] = na     # kept explicit: empty means every listed property is claimed
 json.dump(m, open('MANIFEST.json', 'w'), indent=1)
 print(len(checks), 'checks,', len(na), 'not claimed')
